@@ -242,6 +242,18 @@ func GenConfig(t *rapid.T, f Focus) Config {
 	if f.Prop == "C09" && pct(t, "reactive_module", 30) {
 		c.Reactive = true
 	}
+	if f.Prop == "C09" && pct(t, "reacting_in_response_callback", 25) {
+		c.ReactResp = pick(t, "react_resp", []string{"kill", "pause"})
+	}
+	switch f.Prop {
+	case "C01", "C02", "C10", "C11", "C12", "C16", "C20":
+		// the same reacting module in a tenth of the cases of the properties about money, scheduling,
+		// bookkeeping and clean-up: whatever the module does to its context from inside the callback,
+		// their statements keep holding
+		if pct(t, "reacting_in_response_callback", 10) {
+			c.ReactResp = pick(t, "react_resp", []string{"kill", "pause"})
+		}
+	}
 	if pct(t, "modsvc?", f.ModSvcPct) {
 		base := rapid.SampledFrom([]int64{1, 0, 3, 10}).Draw(t, "modprice")
 		dep := c.MinDepositFor(base) + rapid.SampledFrom([]int64{0, 1, 1000}).Draw(t, "moddepx")
